@@ -195,7 +195,7 @@ def ensure_facts(quiet=False):
         lockf.close()
 
 
-def prune(keep, n=4):
+def prune(keep, n=8):
     ds = [os.path.join(FACTS, x) for x in os.listdir(FACTS) if os.path.isdir(os.path.join(FACTS, x))]
     ds.sort(key=lambda p: os.path.getmtime(p), reverse=True)
     for p in ds[n:]:
